@@ -66,6 +66,7 @@ class Sim(object):
         self.worker = None        # fake process whose code is running now (None: parent)
         self.max_live = 0
         self.frozen = None        # snapshot taken when the parent blocks forever
+        self.poll_limit = 60      # polls for one task after which the parent is declared stuck (timeouts in the cases are <= 5 s)
 
     def beh(self, rid):
         return self.script.get(rid, 'equal')
@@ -215,6 +216,9 @@ class FakeQueue(object):
         # parent waits for an answer
         if sim.polls:
             sim.polls[-1] += 1
+            if sim.polls[-1] > sim.poll_limit:      # a parent that never stops polling (the real run would hang)
+                sim.frozen = sim.snapshot()
+                raise SimDeadlock('the parent polls for ever')
         sim.turn_all()
         if self.items:
             return self.items.pop(0).x
